@@ -268,6 +268,9 @@ class IMUPreintegrator(nn.Module):
 
         if init_state is None:
             init_state = {'pos': self.pos, 'rot': self.rot, 'vel': self.vel}
+        else: # the documented shape (B, H) has no frame axis: add it so that B is not taken for F
+            init_state = {k: v.unsqueeze(-2) if k in ('pos', 'rot', 'vel') and v.ndim == 2 else v
+                          for k, v in init_state.items()}
 
         inte_state = self.integrate(dt, gyro, acc, rot = rot, init_rot = init_state['rot'])
         predict = self.predict(init_state, inte_state)
